@@ -45,7 +45,7 @@ YU == {U, V, W}
 \* (the big universe is spelled out inside the IF: TLC evaluates every zero-arity definition when it starts)
 Tables == IF Scope = "quick" THEN QuickTables ELSE IF Scope = "wide" THEN WideTables
           ELSE {Tab(r) : r \in [1..3 -> AU \X YU]}
-Keys2 == IF Scope = "quick" THEN {<<"a", "y">>} ELSE IF Scope = "wide" THEN {<<"a", "y">>, <<"y", "a">>, <<"y">>, <<"p", "a">>}
+Keys2 == IF Scope = "quick" THEN {<<"a", "y">>} ELSE IF Scope = "wide" THEN {<<"a", "y">>, <<"y", "a">>, <<"y">>}
          ELSE {<<"a", "y">>, <<"y">>}
 NameU == IF Scope = "quick" THEN {<<"a">>, <<"a", "y">>, <<"y">>} ELSE {<<"a">>, <<"a", "y">>, <<"y">>, <<"y", "a">>, <<"p">>}
 Labels(T) == LET pv == CPivot(T, <<"a">>, "y", "p", "last") IN SubSeq(pv.cols, 2, Len(pv.cols))
